@@ -328,6 +328,7 @@ impl<Aux> Vm<'_, Aux> {
                         .checked_sub(arity)
                         .ok_or(ExecutionErrorPayload::MissingArgument)?,
                     closure,
+                    callee: obj.as_ptr(),
                 })
                 .map_err(|_| ExecutionErrorPayload::CallStackOverflow)?;
         }
@@ -781,6 +782,7 @@ impl<Aux> Vm<'_, Aux> {
                 dst_instr_ptr: 0,
                 stack_offset: 0,
                 closure: std::ptr::null_mut(),
+                callee: std::ptr::null_mut(),
             })
             .map_err(|_| ExecutionErrorPayload::CallStackOverflow)
             .map_err(|pl| ExecutionError::new(pl, Default::default()))?;
